@@ -80,7 +80,7 @@ Proof. exact convert_no_invention. Qed.
 Print Assumptions C07_no_invention.
 
 (* the metadata records: one per used commodity that has a usable line, ascending; in the fixed modes
-   each shows instant and rate of THE rate (RateAt) of its commodity, i.e. by C07_rate the one applied *)
+   each shows instant and rate (same value) of THE rate (RateAt) of its commodity, i.e. by C07_rate the one applied *)
 Theorem C07_metadata : forall lk txns tgt f,
   file_ok lk f -> MetaSpec lk tgt f txns (metadata (make_ctx lk txns (Some tgt) (load_db f))).
 Proof. exact metadata_spec. Qed.
